@@ -87,6 +87,28 @@ def handle (st : St) : List String → St × String
       | .k128 => st.s.out7ffd (bv8 v)
       | .k48 => st.s
     ({ c := st.c.write7ffd (bv8 v), s := s' }, "ok")
+  | ["restore", v] =>
+    -- snapshot loaders: `restore_7ffd` = unlock, then an ordinary latch write (128K only)
+    match st.c.kind with
+    | .k128 =>
+      ({ c := ({ st.c with pagingEnabled := true }).write7ffd (bv8 v),
+         s := ({ st.s with locked := false }).out7ffd (bv8 v) }, "ok")
+    | .k48 => (st, "ok")
+  | ["poke", a, v] =>
+    -- host poke (`force_write`): RAM like a CPU write; below 0x4000 the byte goes into the ROM page that is mapped there
+    if (bv16 a).toNat < 16384 then
+      let off := (bv16 a).toNat
+      let pg := match st.c.mem.map 0 with | .rom n => n | .ram _ => 0
+      let spg := match st.c.kind with
+        | .k128 => if st.s.latch &&& 0x10 = 0 then 0 else 1
+        | .k48 => 0
+      ({ c := { st.c with mem := st.c.mem.loadRomPage pg (fun o => if o = off then bv8 v else st.c.mem.rom pg o) },
+         s := { st.s with roms := fun p o => if p = spg && o = off then bv8 v else st.s.roms p o } }, "ok")
+    else
+      let s' := match st.c.kind with
+        | .k128 => st.s.write (bv16 a) (bv8 v)
+        | .k48 => st.s.write48 (bv16 a) (bv8 v)
+      ({ c := st.c.writeInternal (bv16 a) (bv8 v), s := s' }, "ok")
   | ["wr", a, v] =>
     let s' := match st.c.kind with
       | .k128 => st.s.write (bv16 a) (bv8 v)
